@@ -223,6 +223,9 @@ structure Out (mf L0 : Nat) (W : Bool) (s' : BS) (sc : Scanned) : Prop where
   good : Good mf s'
   /-- `W`: the token value is the whole token text (`tvalue_start == text_start`, value ends at `next_char`) -/
   whole : W = true → s'.sb.tvalueOffset = 0 ∧ s'.sb.tvalueStart + s'.tvlen = s'.sb.next
+  /-- a whitespace-delimited token never ends on the last unit of the buffer array: it was ended by BACK_UP, or by the end of the
+      input after get_more_chars() made room — there is a unit behind it for the parser's string terminator -/
+  fits : W = true → s'.sb.next < s'.sb.size
   value : s'.value = sc.acc.reverse
   bound : s'.sb.tvalueStart + s'.tvlen ≤ s'.sb.next
   rem : s'.remaining = sc.pos.rest
@@ -235,13 +238,13 @@ theorem reverse_drop_reverse (l : Str) (d : Nat) : (l.reverse.drop d).reverse = 
 
 /-- `TVALUE_INCSTART(k); TVALUE_SETLENGTH(next_char - tvalue_start - dsize)` with `tvalue_start == text_start` before -/
 theorem out_endDelim (mf L0 : Nat) (s : BS) (k d : Nat) (g : Good mf s) (h0 : s.sb.tvalueOffset = 0) (hk : k ≤ s.text.length)
-    (hL : s.text.length + s.remaining.length = L0) :
+    (hL : s.text.length + s.remaining.length = L0) (hfit : (k == 0 && d == 0) = true → s.sb.next < s.sb.size) :
     Out mf L0 (k == 0 && d == 0) (endDelim s k d) ⟨(racc k s).drop d, ⟨s.remaining, s.line, s.col⟩⟩ := by
   obtain ⟨h1, h2, h3, h4, h5⟩ := g.inv
   have hlen := g.text_length
   have hts : s.sb.tvalueStart = s.sb.textStart := by simp only [SB.tvalueOffset] at h0; omega
   refine ⟨⟨⟨by show s.sb.textStart ≤ s.sb.tvalueStart + k; omega, by show s.sb.tvalueStart + k ≤ s.sb.next; omega, h3, h4, h5⟩,
-    g.size, g.mf, g.ok, g.eof⟩, ?_, ?_, by show s.sb.tvalueStart + k + (s.sb.next - (s.sb.tvalueStart + k) - d) ≤ s.sb.next; omega,
+    g.size, g.mf, g.ok, g.eof⟩, ?_, hfit, ?_, by show s.sb.tvalueStart + k + (s.sb.next - (s.sb.tvalueStart + k) - d) ≤ s.sb.next; omega,
     rfl, rfl, rfl, hL⟩
   · intro hw
     simp only [Bool.and_eq_true, beq_iff_eq] at hw
@@ -286,20 +289,20 @@ theorem adv_backUp {mf : Nat} {dia : Dialect} {s s1 : BS} {fix : Bool} {c' : CU}
 theorem unpairedLeadB_sim (mf : Nat) (dia : Dialect) (s : BS) (lead : Bool) (k : Nat) (g : Good mf s)
     (hk : k ≤ s.text.length) (hl : lead = true → k < s.text.length) :
     Sim (fun s' acc' => Good mf s' ∧ racc k s' = acc' ∧ s'.remaining = s.remaining ∧ s'.line = s.line ∧ s'.col = s.col ∧
-          s'.sb.tvalueOffset = s.sb.tvalueOffset ∧ s'.text.length = s.text.length)
+          s'.sb.tvalueOffset = s.sb.tvalueOffset ∧ s'.text.length = s.text.length ∧ s'.sb.next = s.sb.next ∧ s'.sb.size = s.sb.size)
       (unpairedLeadB dia s lead) (leadAtEof dia s.line s.col lead (racc k s)) := by
   simp only [unpairedLeadB, leadAtEof, bind_eq, pure_eq]
   apply sim_bind_same
   intro _
   apply sim_pure
   cases lead with
-  | false => exact ⟨g, rfl, rfl, rfl, rfl, rfl, rfl⟩
+  | false => exact ⟨g, rfl, rfl, rfl, rfl, rfl, rfl, rfl, rfl⟩
   | true =>
     have hkl := hl rfl
     have hlen := g.text_length
     have f := fixLast_spec mf dia s g (by omega)
     simp only [if_true, fixAcc]
-    refine ⟨f.1, ?_, f.2.2, rfl, rfl, rfl, by rw [f.2.1]; simp; omega⟩
+    refine ⟨f.1, ?_, f.2.2, rfl, rfl, rfl, by rw [f.2.1]; simp; omega, rfl, rfl⟩
     unfold racc
     rw [f.2.1]
     have hne : s.text ≠ [] := by intro h; rw [h] at hkl; simp at hkl
@@ -308,6 +311,8 @@ theorem unpairedLeadB_sim (mf : Nat) (dia : Dialect) (s : BS) (lead : Bool) (k :
     rw [List.drop_append_of_le_length hk', List.reverse_append]
     conv => rhs; rw [hdl, List.drop_append_of_le_length hk', List.reverse_append]
     simp
+
+theorem eofChar_meta (dia : Dialect) : metaOfCls (classOf dia eofChar) ≠ .ws := by cases dia <;> decide
 
 /-! ### scan_to_ws, scan_to_eol -/
 
@@ -332,7 +337,7 @@ theorem scanToWsB_sim (dia : Dialect) (mf L0 : Nat) : ∀ (fuel : Nat) (s : BS) 
       · simp only [hws, if_true]
         apply sim_pure
         have b := adv_backUp a g 0 (Nat.zero_le _)
-        have o := out_endDelim mf L0 (backUp (stepU dia s u)) 0 0 b.1 (by rw [b.2.2.2.2.2.1, h0]) (Nat.zero_le _) (by rw [b.2.2.2.2.2.2.2, hL])
+        have o := out_endDelim mf L0 (backUp (stepU dia s u)) 0 0 b.1 (by rw [b.2.2.2.2.2.1, h0]) (Nat.zero_le _) (by rw [b.2.2.2.2.2.2.2, hL]) (fun _ => by obtain ⟨_, _, q3, q4, _⟩ := a.good.inv; have := a.next; show (stepU dia s u).sb.next - 1 < (stepU dia s u).sb.size; omega)
         rw [b.2.1, hr, b.2.2.1, b.2.2.2.1, b.2.2.2.2.1, stepU_col, stepU_line, ← hrem] at o
         exact o
       · simp only [hws, if_false]
@@ -353,10 +358,10 @@ theorem scanToWsB_sim (dia : Dialect) (mf L0 : Nat) : ∀ (fuel : Nat) (s : BS) 
         have hu := unpairedLeadB_sim mf dia (getMore mf s).2 lead 0 hs.1 (Nat.zero_le _) (by rw [hs.2.1]; exact hl)
         rw [hrc, hs.2.2.2.1, hs.2.2.2.2.1] at hu
         apply sim_bind hu
-        intro s' acc' ⟨g', e1, e2, e3, e4, e5, e6⟩
+        intro s' acc' ⟨g', e1, e2, e3, e4, e5, e6, e7, e8⟩
         apply sim_pure
         have o := out_endDelim mf L0 s' 0 0 g' (by rw [e5, hs.2.2.1, h0]) (Nat.zero_le _)
-          (by rw [e6, e2, hs.2.1, hs.2.2.2.2.2.2.2.1, hL])
+          (by rw [e6, e2, hs.2.1, hs.2.2.2.2.2.2.2.1, hL]) (fun _ => by rw [e7, e8]; have := hs.2.2.2.2.2.2.2.2.1 hb; omega)
         subst e1
         rw [e2.trans (hs.2.2.2.2.2.2.2.1.trans hr), e3, e4] at o
         exact o
@@ -388,7 +393,7 @@ theorem scanToEolB_sim (dia : Dialect) (mf L0 : Nat) : ∀ (fuel : Nat) (s : BS)
       · simp only [hws, if_true]
         apply sim_pure
         have b := adv_backUp a g 0 (Nat.zero_le _)
-        have o := out_endDelim mf L0 (backUp (stepU dia s u)) 0 0 b.1 (by rw [b.2.2.2.2.2.1, h0]) (Nat.zero_le _) (by rw [b.2.2.2.2.2.2.2, hL])
+        have o := out_endDelim mf L0 (backUp (stepU dia s u)) 0 0 b.1 (by rw [b.2.2.2.2.2.1, h0]) (Nat.zero_le _) (by rw [b.2.2.2.2.2.2.2, hL]) (fun _ => by obtain ⟨_, _, q3, q4, _⟩ := a.good.inv; have := a.next; show (stepU dia s u).sb.next - 1 < (stepU dia s u).sb.size; omega)
         rw [b.2.1, hr, b.2.2.1, b.2.2.2.1, b.2.2.2.2.1, stepU_col, stepU_line, ← hrem] at o
         exact o
       · simp only [hws, if_false]
@@ -409,10 +414,10 @@ theorem scanToEolB_sim (dia : Dialect) (mf L0 : Nat) : ∀ (fuel : Nat) (s : BS)
         have hu := unpairedLeadB_sim mf dia (getMore mf s).2 lead 0 hs.1 (Nat.zero_le _) (by rw [hs.2.1]; exact hl)
         rw [hrc, hs.2.2.2.1, hs.2.2.2.2.1] at hu
         apply sim_bind hu
-        intro s' acc' ⟨g', e1, e2, e3, e4, e5, e6⟩
+        intro s' acc' ⟨g', e1, e2, e3, e4, e5, e6, e7, e8⟩
         apply sim_pure
         have o := out_endDelim mf L0 s' 0 0 g' (by rw [e5, hs.2.2.1, h0]) (Nat.zero_le _)
-          (by rw [e6, e2, hs.2.1, hs.2.2.2.2.2.2.2.1, hL])
+          (by rw [e6, e2, hs.2.1, hs.2.2.2.2.2.2.2.1, hL]) (fun _ => by rw [e7, e8]; have := hs.2.2.2.2.2.2.2.2.1 hb; omega)
         subst e1
         rw [e2.trans (hs.2.2.2.2.2.2.2.1.trans hr), e3, e4] at o
         exact o
@@ -446,7 +451,7 @@ theorem scanUnquotedB_sim (dia : Dialect) (mf L0 : Nat) : ∀ (fuel : Nat) (s : 
       have hback : Out mf L0 true (endTok (backUp (stepU dia s u)))
           ⟨fixAcc dia u.fixPrev (racc 0 s), ⟨u.c :: (s.remaining).tail, s.line, u.col - 1⟩⟩ := by
         have b := adv_backUp a g 0 (Nat.zero_le _)
-        have o := out_endDelim mf L0 (backUp (stepU dia s u)) 0 0 b.1 (by rw [b.2.2.2.2.2.1, h0]) (Nat.zero_le _) (by rw [b.2.2.2.2.2.2.2, hL])
+        have o := out_endDelim mf L0 (backUp (stepU dia s u)) 0 0 b.1 (by rw [b.2.2.2.2.2.1, h0]) (Nat.zero_le _) (by rw [b.2.2.2.2.2.2.2, hL]) (fun _ => by obtain ⟨_, _, q3, q4, _⟩ := a.good.inv; have := a.next; show (stepU dia s u).sb.next - 1 < (stepU dia s u).sb.size; omega)
         rw [b.2.1, hr, b.2.2.1, b.2.2.2.1, b.2.2.2.2.1, stepU_col, stepU_line, ← hrem] at o
         exact o
       have hgo : ∀ k' kd' ks', Sim (Out mf L0 true) (scanUnquotedB dia mf fuel (stepU dia s u) s.sb.limit u.lead k' kd' ks')
@@ -485,7 +490,7 @@ theorem scanUnquotedB_sim (dia : Dialect) (mf L0 : Nat) : ∀ (fuel : Nat) (s : 
           exact hback
         · simp only [hc, if_false]
           apply sim_pure
-          have o := out_endDelim mf L0 (stepU dia s u) 0 0 a.good (by rw [a.tvoff, h0]) (Nat.zero_le _) (by rw [a.sum g, hL])
+          have o := out_endDelim mf L0 (stepU dia s u) 0 0 a.good (by rw [a.tvoff, h0]) (Nat.zero_le _) (by rw [a.sum g, hL]) (fun _ => absurd (by rw [← (Classical.not_not.mp hc)]; exact hmeta) (eofChar_meta dia))
           rw [hr, ← hrem, stepU_col, stepU_line] at o
           exact o
       | no => simp only []; exact hgo _ _ _
@@ -502,10 +507,10 @@ theorem scanUnquotedB_sim (dia : Dialect) (mf L0 : Nat) : ∀ (fuel : Nat) (s : 
         have hu := unpairedLeadB_sim mf dia (getMore mf s).2 lead 0 hs.1 (Nat.zero_le _) (by rw [hs.2.1]; exact hl)
         rw [hrc, hs.2.2.2.1, hs.2.2.2.2.1] at hu
         apply sim_bind hu
-        intro s' acc' ⟨g', e1, e2, e3, e4, e5, e6⟩
+        intro s' acc' ⟨g', e1, e2, e3, e4, e5, e6, e7, e8⟩
         apply sim_pure
         have o := out_endDelim mf L0 s' 0 0 g' (by rw [e5, hs.2.2.1, h0]) (Nat.zero_le _)
-          (by rw [e6, e2, hs.2.1, hs.2.2.2.2.2.2.2.1, hL])
+          (by rw [e6, e2, hs.2.1, hs.2.2.2.2.2.2.2.1, hL]) (fun _ => by rw [e7, e8]; have := hs.2.2.2.2.2.2.2.2.1 hb; omega)
         subst e1
         rw [e2.trans (hs.2.2.2.2.2.2.2.1.trans hr), e3, e4] at o
         exact o
@@ -559,7 +564,7 @@ theorem scanTripleB_sim (dia : Dialect) (mf L0 : Nat) (delim : CU) : ∀ (fuel :
         by_cases h3' : dc + 1 ≥ 3
         · simp only [h3', if_true]
           apply sim_pure
-          have o := out_endDelim mf L0 (stepU dia s u) 3 3 a.good (by rw [a.tvoff, h0]) (by rw [a.tlen g]; omega) (by rw [a.sum g, hL])
+          have o := out_endDelim mf L0 (stepU dia s u) 3 3 a.good (by rw [a.tvoff, h0]) (by rw [a.tlen g]; omega) (by rw [a.sum g, hL]) (fun h => by simp at h)
           rw [hr, ← hrem, stepU_col, stepU_line, hd] at o
           exact o
         · simp only [h3', if_false]
@@ -597,13 +602,13 @@ theorem scanTripleB_sim (dia : Dialect) (mf L0 : Nat) (delim : CU) : ∀ (fuel :
         have hu := unpairedLeadB_sim mf dia (getMore mf s).2 lead 3 hs.1 (by rw [hs.2.1]; exact h3) (by rw [hs.2.1]; exact hl)
         rw [hrc, hs.2.2.2.1, hs.2.2.2.2.1] at hu
         apply sim_bind hu
-        intro s' acc' ⟨g', e1, e2, e3, e4, e5, e6⟩
+        intro s' acc' ⟨g', e1, e2, e3, e4, e5, e6, e7, e8⟩
         rw [e3, e4]
         apply sim_bind_same
         intro _
         apply sim_pure
         have o := out_endDelim mf L0 s' 3 0 g' (by rw [e5, hs.2.2.1, h0]) (by rw [e6, hs.2.1]; exact h3)
-          (by rw [e6, e2, hs.2.1, hs.2.2.2.2.2.2.2.1, hL])
+          (by rw [e6, e2, hs.2.1, hs.2.2.2.2.2.2.2.1, hL]) (fun h => by simp at h)
         subst e1
         rw [e2.trans (hs.2.2.2.2.2.2.2.1.trans hr), e3, e4] at o
         exact o
@@ -722,7 +727,7 @@ theorem scanTextB_sim (dia : Dialect) (mf L0 : Nat) : ∀ (fuel : Nat) (s : BS) 
           have hfx : u.fixPrev = true → 1 < s.text.length := fun _ => hsol hs0
           have hds := dsize_eq mf (stepU dia s u) a.good hlen3 (by rw [a.head h1 hfx]; exact hhd)
           rw [hr] at hds
-          have o := fun d => out_endDelim mf L0 (stepU dia s u) 1 d a.good (by rw [a.tvoff, h0]) (by rw [a.tlen g]; omega) (by rw [a.sum g, hL])
+          have o := fun d => out_endDelim mf L0 (stepU dia s u) 1 d a.good (by rw [a.tvoff, h0]) (by rw [a.tlen g]; omega) (by rw [a.sum g, hL]) (fun h => by simp at h)
           by_cases hcond : (stepU dia s u).get ((stepU dia s u).sb.next - 2) = 10 ∧ (stepU dia s u).get ((stepU dia s u).sb.next - 3) = 13
           · rw [if_pos hcond, if_pos (hds.mp hcond)]
             have := o 3
@@ -766,13 +771,13 @@ theorem scanTextB_sim (dia : Dialect) (mf L0 : Nat) : ∀ (fuel : Nat) (s : BS) 
         have hu := unpairedLeadB_sim mf dia (getMore mf s).2 lead 1 hs.1 (by rw [hs.2.1]; exact h1) (by rw [hs.2.1]; exact hl)
         rw [hrc, hs.2.2.2.1, hs.2.2.2.2.1] at hu
         apply sim_bind hu
-        intro s' acc' ⟨g', e1, e2, e3, e4, e5, e6⟩
+        intro s' acc' ⟨g', e1, e2, e3, e4, e5, e6, e7, e8⟩
         rw [e3, e4]
         apply sim_bind_same
         intro _
         apply sim_pure
         have o := out_endDelim mf L0 s' 1 0 g' (by rw [e5, hs.2.2.1, h0]) (by rw [e6, hs.2.1]; exact h1)
-          (by rw [e6, e2, hs.2.1, hs.2.2.2.2.2.2.2.1, hL])
+          (by rw [e6, e2, hs.2.1, hs.2.2.2.2.2.2.2.1, hL]) (fun h => by simp at h)
         subst e1
         rw [e2.trans (hs.2.2.2.2.2.2.2.1.trans hr), e3, e4] at o
         exact o
@@ -844,7 +849,7 @@ theorem scanDelimB_sim (dia : Dialect) (mf L0 : Nat) (delim : CU) : ∀ (fuel : 
         have hclose : Out mf L0 false (endDelim (peekChar mf (stepU dia s u)).2 1 1)
             ⟨fixAcc dia u.fixPrev (racc 1 s), ⟨(s.remaining).tail, s.line, u.col⟩⟩ := by
           have o := out_endDelim mf L0 (peekChar mf (stepU dia s u)).2 1 1 sm.good (by rw [sm.tvoff, a.tvoff, h0])
-            (by rw [sm.text, a.tlen g]; omega) (by rw [sm.sum, a.sum g, hL])
+            (by rw [sm.text, a.tlen g]; omega) (by rw [sm.sum, a.sum g, hL]) (fun h => by simp at h)
           rw [sm.racc, hr, sm.rem, ← hrem, sm.line, sm.col, stepU_col, stepU_line] at o
           exact o
         cases hp : (peekChar mf (stepU dia s u)).1 with
@@ -932,7 +937,7 @@ theorem scanDelimB_sim (dia : Dialect) (mf L0 : Nat) (delim : CU) : ∀ (fuel : 
           intro _
           apply sim_pure
           have o := out_endDelim mf L0 (backUp (stepU dia s u)) 1 0 b.1 (by rw [b.2.2.2.2.2.1, h0]) (by rw [b.2.2.2.2.2.2.1]; exact h1)
-            (by rw [b.2.2.2.2.2.2.2, hL])
+            (by rw [b.2.2.2.2.2.2.2, hL]) (fun h => by simp at h)
           rw [b.2.1, hr, b.2.2.1, b.2.2.2.1, b.2.2.2.2.1, stepU_col, stepU_line, ← hrem] at o
           exact o
         · simp only [he, if_false]
@@ -952,13 +957,13 @@ theorem scanDelimB_sim (dia : Dialect) (mf L0 : Nat) (delim : CU) : ∀ (fuel : 
         have hu := unpairedLeadB_sim mf dia (getMore mf s).2 lead 1 hs.1 (by rw [hs.2.1]; exact h1) (by rw [hs.2.1]; exact hl)
         rw [hrc, hs.2.2.2.1, hs.2.2.2.2.1] at hu
         apply sim_bind hu
-        intro s' acc' ⟨g', e1, e2, e3, e4, e5, e6⟩
+        intro s' acc' ⟨g', e1, e2, e3, e4, e5, e6, e7, e8⟩
         rw [e3, e4]
         apply sim_bind_same
         intro _
         apply sim_pure
         have o := out_endDelim mf L0 s' 1 0 g' (by rw [e5, hs.2.2.1, h0]) (by rw [e6, hs.2.1]; exact h1)
-          (by rw [e6, e2, hs.2.1, hs.2.2.2.2.2.2.2.1, hL])
+          (by rw [e6, e2, hs.2.1, hs.2.2.2.2.2.2.2.1, hL]) (fun h => by simp at h)
         subst e1
         rw [e2.trans (hs.2.2.2.2.2.2.2.1.trans hr), e3, e4] at o
         exact o
